@@ -313,6 +313,27 @@ fn pass_through<'a>(req: &'a Message, next: repe::Next<'a>) -> Result<Message, r
 // ------------------------------------------------------------------------------------------
 // the system under test + bookkeeping
 // ------------------------------------------------------------------------------------------
+/// armed only while an API call of the registry under test runs (not during the harness's own teardown)
+static BOMBS_ARMED: std::sync::atomic::AtomicBool = std::sync::atomic::AtomicBool::new(false);
+struct ArmOnUnwind(Arc<std::sync::atomic::AtomicBool>, bool);
+impl Drop for ArmOnUnwind {
+    fn drop(&mut self) {
+        if self.1 && std::thread::panicking() {
+            self.0.store(true, Ordering::SeqCst);
+        }
+    }
+}
+
+/// live only once its registration succeeded (a callable dropped by a REFUSED registration is silent)
+struct DropBomb(Arc<std::sync::atomic::AtomicBool>);
+impl Drop for DropBomb {
+    fn drop(&mut self) {
+        if self.0.load(Ordering::SeqCst) && BOMBS_ARMED.load(Ordering::SeqCst) && !std::thread::panicking() {
+            panic!("callable dropped inside a registry call");
+        }
+    }
+}
+
 type Log = Arc<Mutex<Vec<(u64, Value)>>>;
 /// calls a re-entrant callable made into the registry: (pointer, value, result of the nested register_value)
 type Nested = Arc<Mutex<Vec<(String, Value, RRes)>>>;
@@ -458,6 +479,7 @@ impl Sys {
             Some(1_000_001) => panic!("{}", format!("callable {tag} panics")),
             Some(1_000_002) => panic!("callable panics"),
             Some(1_000_003) => std::panic::panic_any(7u32),
+            Some(4_000_000) => Ok(echo),
             Some(2_000_000) => {
                 std::thread::sleep(std::time::Duration::from_micros(40));
                 Ok(echo)
@@ -475,17 +497,28 @@ impl Sys {
     }
     fn register_fn(reg: &Arc<Registry>, log: &Log, nested: &Nested, path: &str, tag: u64, fail: Option<u32>) -> Result<(), RegistryError> {
         let (log, nested, weak) = (Arc::clone(log), Arc::clone(nested), Arc::downgrade(reg));
-        match tag % 3 {
+        // kind 4000000: the callable owns a value whose `Drop` panics when the registry lets go of it during an API
+        // call (i.e. when the registration is replaced: the old callable is dropped inside `register_function`)
+        let live = Arc::new(std::sync::atomic::AtomicBool::new(false));
+        let bomb = DropBomb(Arc::clone(&live));
+        // if the call unwinds (the REPLACED callable's Drop panicked) the new registration has taken effect all the same
+        let _arm = ArmOnUnwind(Arc::clone(&live), fail == Some(4_000_000));
+        let r = match tag % 3 {
             // the three registration forms: plain closure, context-taking callable, pre-built Arc
-            2 => reg.register_function_arc(path, Arc::new(WithContext(move |_ctx: &repe::CallContext, params: Option<Value>| Self::callable_body(&weak, &log, &nested, tag, fail, params)))),
-            1 => reg.register_function(path, WithContext(move |_ctx: &repe::CallContext, params: Option<Value>| Self::callable_body(&weak, &log, &nested, tag, fail, params))),
-            _ => reg.register_function(path, move |params: Option<Value>| Self::callable_body(&weak, &log, &nested, tag, fail, params)),
+            2 => reg.register_function_arc(path, Arc::new(WithContext(move |_ctx: &repe::CallContext, params: Option<Value>| { let _b = &bomb; Self::callable_body(&weak, &log, &nested, tag, fail, params) }))),
+            1 => reg.register_function(path, WithContext(move |_ctx: &repe::CallContext, params: Option<Value>| { let _b = &bomb; Self::callable_body(&weak, &log, &nested, tag, fail, params) })),
+            _ => reg.register_function(path, move |params: Option<Value>| { let _b = &bomb; Self::callable_body(&weak, &log, &nested, tag, fail, params) }),
+        };
+        if r.is_ok() && fail == Some(4_000_000) {
+            live.store(true, Ordering::SeqCst);
         }
+        r
     }
     /// Execute one API op on the real registry (no oracle).
     fn apply(&mut self, op: &OpR) -> RRes {
         let r = Self::apply_shared(&self.reg, &self.log, &self.nested, self.flip, op);
-        if let (OpR::RegF(p, t, f), Ok(_)) = (op, &r) {
+        let took_effect = r.is_ok() || matches!(&r, Err((n, _)) if n == "Panic");
+        if let (OpR::RegF(p, t, f), true) = (op, took_effect) {
             self.regfs.push((p.clone(), *t, *f));
             if let Some(toks) = o_reg_parse(p) {
                 self.okeys.insert(o_canon(&toks), *t);
@@ -495,7 +528,10 @@ impl Sys {
     }
     fn apply_shared(reg: &Arc<Registry>, log: &Log, nested: &Nested, flip: bool, op: &OpR) -> RRes {
         // a panicking callable unwinds through `dispatch`: caught here, reported as its own class
-        match catch(|| Self::apply_inner(reg, log, nested, flip, op)) {
+        BOMBS_ARMED.store(true, Ordering::SeqCst);
+        let r = catch(|| Self::apply_inner(reg, log, nested, flip, op));
+        BOMBS_ARMED.store(false, Ordering::SeqCst);
+        match r {
             Ok(r) => r,
             Err(_) => Err(("Panic".to_string(), 0)),
         }
@@ -761,6 +797,7 @@ fn apply_checked(out: &mut Out, sys: &mut Sys, op: &OpR, trail: &[String], check
                         fail(out, "registry.read.function_info", format!("after {} a read of {} gave {}", op.words(), pword(&key), show_rres(&info)));
                     }
                 }
+                (Err((n, _)), Some(_)) if n == "Panic" => out.count("regf.replaced_callable_drop_panicked"),
                 (Err(_), Some(toks)) if !toks.is_empty() => {
                     fail(out, "registry.register_function.refused", format!("{} with a well-formed non-root path gave {}", op.words(), show_rres(&r)));
                 }
@@ -1037,6 +1074,38 @@ fn exec_seq(out: &mut Out, ctx: &mut Ctx, line: &str) -> Option<(String, bool)> 
                 }
             }
             Some((match r { Some(x) => format!("{} some {}", idx, render(x)), None => format!("{} none", idx) }, r.is_some()))
+        }
+        "rep" => {
+            // rep i N <op …>: the same API call N times in a row on the same registry; every repetition goes through the
+            // ordinary oracles (the N-th is treated like the first); observation = digest of all N observations + the last
+            let n: usize = w[2].parse().expect("count");
+            let (op, used) = OpR::parse(&w[3..]).unwrap_or_else(|| panic!("bad rep line {line}"));
+            assert_eq!(used + 3, w.len(), "trailing words in {line}");
+            ctx.trail.push(line.to_string());
+            let trail = ctx.trail.clone();
+            let mut h = 0xcbf29ce484222325u64;
+            let mut last = String::new();
+            let mut nested_n = 0;
+            let mut nested_first = Vec::new();
+            for k in 0..n {
+                // full oracles on the first and last repetitions, around the usual thresholds, and every 32nd; the digest
+                // (compared with the model) covers every repetition
+                let full = k < 3 || k + 3 >= n || k % 32 == 0 || [7, 8, 9, 15, 16, 17, 63, 64, 65, 127, 128, 129, 254, 255, 256, 257].contains(&k);
+                let r = apply_checked(out, &mut ctx.sys, &op, &trail, full);
+                last = obs(&ctx.sys, &r);
+                h = fnv_line(h, &last);
+                for x in ctx.sys.nested.lock().unwrap().drain(..) {
+                    nested_n += 1;
+                    if nested_n <= 2 {
+                        nested_first.push(x);
+                    }
+                }
+            }
+            for (j, (ptr, v, nr)) in nested_first.iter().enumerate() {
+                ctx.pending_lines.push((format!("nregv {}.{} {} {}", idx, j + 1, pword(ptr), render(v)), format!("{}.{} {}", idx, j + 1, obs(&ctx.sys, nr))));
+            }
+            out.count(&format!("rep.{}x{}", w[3], n));
+            Some((format!("{} {} last {}", idx, h, last), true))
         }
         _ => {
             let (op, n) = {
@@ -1416,6 +1485,141 @@ fn linearizable(sc: &Scenario, o: &Outcome, two_step: bool, explored: &mut u64) 
     go(&mut st, &mut pos, &mut pend, &sys.snapshot(), explored)
 }
 
+/// `watch i iters S setup… M op… W read|disp P …`: one mutator thread runs its ops in order while 1–3 watcher
+/// threads hammer one read-only call each.  Every watcher's sequence of answers (consecutive duplicates removed)
+/// must walk, in order, through the states the document is in before / between / after the mutator's ops.
+struct Watch {
+    setup: Vec<OpR>,
+    mutator: Vec<OpR>,
+    watchers: Vec<OpR>,
+}
+
+impl Watch {
+    fn words(&self) -> String {
+        let mut s = String::from("S");
+        for op in &self.setup {
+            s.push(' ');
+            s.push_str(&op.words());
+        }
+        s.push_str(" M");
+        for op in &self.mutator {
+            s.push(' ');
+            s.push_str(&op.words());
+        }
+        for op in &self.watchers {
+            s.push_str(" W ");
+            s.push_str(&op.words());
+        }
+        s
+    }
+    fn parse(w: &[&str]) -> Watch {
+        assert_eq!(w[0], "S");
+        let mut wt = Watch { setup: vec![], mutator: vec![], watchers: vec![] };
+        let (mut i, mut sec) = (1, 0);
+        while i < w.len() && w[i] != "=>" {
+            match w[i] {
+                "M" => { sec = 1; i += 1; continue; }
+                "W" => { sec = 2; i += 1; continue; }
+                _ => {}
+            }
+            let (op, n) = OpR::parse(&w[i..]).unwrap_or_else(|| panic!("bad watch line at word {i}"));
+            match sec { 0 => wt.setup.push(op), 1 => wt.mutator.push(op), _ => wt.watchers.push(op) }
+            i += n;
+        }
+        wt
+    }
+}
+
+fn run_watch(wt: &Watch) -> Vec<Vec<String>> {
+    let mut sys = Sys::new();
+    for op in &wt.setup {
+        let _ = sys.apply(op);
+    }
+    let n = wt.watchers.len() + 1;
+    let arrived = AtomicUsize::new(0);
+    let done = AtomicUsize::new(0);
+    let (reg, log, nested) = (Arc::clone(&sys.reg), Arc::clone(&sys.log), Arc::clone(&sys.nested));
+    std::thread::scope(|s| {
+        let hs: Vec<_> = wt.watchers.iter().map(|op| {
+            let (reg, log, nested, arrived, done) = (&reg, &log, &nested, &arrived, &done);
+            s.spawn(move || {
+                arrived.fetch_add(1, Ordering::AcqRel);
+                wait_until(|| arrived.load(Ordering::Acquire) >= n);
+                let mut seen: Vec<String> = Vec::new();
+                let mut after = 0;
+                while after < 3 {
+                    if done.load(Ordering::Acquire) == 1 {
+                        after += 1;
+                    }
+                    let w = res_word(&Sys::apply_shared(reg, log, nested, false, op));
+                    if seen.last() != Some(&w) {
+                        seen.push(w);
+                    }
+                }
+                seen
+            })
+        }).collect();
+        arrived.fetch_add(1, Ordering::AcqRel);
+        wait_until(|| arrived.load(Ordering::Acquire) >= n);
+        for op in &wt.mutator {
+            let _ = Sys::apply_shared(&reg, &log, &nested, false, op);
+        }
+        done.store(1, Ordering::Release);
+        hs.into_iter().map(|h| h.join().expect("watcher")).collect()
+    })
+}
+
+/// the answers a watcher may see, in order: its call on the state before the mutator's first op, after the first, …
+fn watch_states(wt: &Watch, watcher: &OpR) -> Vec<String> {
+    let mut sys = Sys::new();
+    for op in &wt.setup {
+        let _ = sys.apply(op);
+    }
+    let mut out = vec![res_word(&Sys::from_snapshot(&sys.snapshot()).apply(watcher))];
+    for op in &wt.mutator {
+        let _ = sys.apply(op);
+        out.push(res_word(&Sys::from_snapshot(&sys.snapshot()).apply(watcher)));
+    }
+    out
+}
+
+fn admissible(states: &[String], seen: &[String]) -> bool {
+    let mut j = 0;
+    for w in seen {
+        match (j..states.len()).find(|k| &states[*k] == w) {
+            Some(k) => j = k,
+            None => return false,
+        }
+    }
+    true
+}
+
+fn exec_watch(out: &mut Out, line: &str) {
+    let w = words(line);
+    let idx = w[1];
+    let iters: u64 = w[2].parse().unwrap();
+    let wt = Watch::parse(&w[3..]);
+    let base = format!("watch {} {} {}", idx, iters, wt.words());
+    let states: Vec<Vec<String>> = wt.watchers.iter().map(|op| watch_states(&wt, op)).collect();
+    let mut seen: BTreeMap<String, Vec<Vec<String>>> = BTreeMap::new();
+    for _ in 0..iters {
+        let o = run_watch(&wt);
+        let key = o.iter().map(|v| format!("V {}", v.join(" "))).collect::<Vec<_>>().join(" ");
+        if seen.len() < 12 || seen.contains_key(&key) {
+            seen.entry(key).or_insert(o);
+        }
+    }
+    out.add("watch.runs", iters);
+    out.count(&format!("watch.distinct_outcomes.{}", seen.len().min(12)));
+    for (key, o) in &seen {
+        let ok = o.iter().zip(&states).all(|(s, st)| admissible(st, s));
+        if !ok {
+            out.oracle_fail("registry.watch.inadmissible", &format!("a read-only call running beside the mutator saw answers that are not the document's successive states: {} (states per watcher: {:?})", key, states), &[base.clone()]);
+        }
+        out.case(&format!("{} => {}", base, key), &format!("{} admissible", idx), o.iter().any(|v| v.len() > 1));
+    }
+}
+
 /// Execute a `conc` op line: run the scenario `iters` times, report each distinct outcome once.
 fn exec_conc(out: &mut Out, line: &str) {
     let w = words(line);
@@ -1542,7 +1746,11 @@ impl SeqGen {
             self.pool.push(p.clone());
             p
         } else if k < 93 {
-            let p = if r.chance(1, 6) {
+            let p = if r.chance(1, 12) {
+                // long: a canonical pointer beyond any fixed key / path buffer (1.3–5 KiB)
+                let d = r.range(16, 60);
+                (0..d).map(|_| format!("/{}", o_escape(r.pick(&["qqqqqqqqqqqqqqqqqqqqqqqqqqqqqqqqqqqqqqqqqqqqqqqqqqqqqqqqqqqqqqqqqqqqqqqqqqqqqqqq", "x/y~x/y~x/y~x/y~x/y~x/y~x/y~x/y~x/y~x/y~x/y~x/y~"])))).collect()
+            } else if r.chance(1, 6) {
                 // deep: more reference tokens than any fixed-size segment buffer would hold
                 let d = r.range(15, 40);
                 (0..d).map(|_| format!("/{}", o_escape(r.pick(&["a", "b", "0", "x/y", ""])))).collect()
@@ -1560,7 +1768,7 @@ impl SeqGen {
     }
 }
 
-fn gen_sequence(r: &mut Rng, k: &mut u64, ops: &mut Vec<String>, max_len: u64) {
+fn gen_sequence(r: &mut Rng, k: &mut u64, ops: &mut Vec<String>, max_len: u64, thorough: bool) {
     let mut next = |ops: &mut Vec<String>, s: String| {
         let (name, rest) = s.split_once(' ').map(|(a, b)| (a.to_string(), format!(" {b}"))).unwrap_or((s.clone(), String::new()));
         ops.push(format!("{} {}{}", name, *k, rest));
@@ -1601,6 +1809,7 @@ fn gen_sequence(r: &mut Rng, k: &mut u64, ops: &mut Vec<String>, max_len: u64) {
                         3 => Some(*r.pick(&[1_000_001u32, 1_000_002, 1_000_003])),
                         4 => Some(2_000_000),
                         5 | 6 => Some(3_000_000),
+                        7 => Some(4_000_000),
                         _ => None,
                     };
                     tags.push((tag, fail));
@@ -1653,6 +1862,12 @@ fn gen_sequence(r: &mut Rng, k: &mut u64, ops: &mut Vec<String>, max_len: u64) {
                 let hdr = format!("{}:{}:{}", *r.pick(&[0u64, 1, u64::MAX, 77]), *r.pick(&[0u64, 1, 255]), *r.pick(&[1u64, 0, 999]));
                 format!("req {} {} {} {} {} {} {}", pword(&path), q, r.below(3), hdr, fmt, hex(&bytes), dec)
             }
+        };
+        let op = if !op.starts_with("req ") && r.chance(1, 25) {
+            let n = if thorough { *r.pick(&[1u32, 2, 7, 8, 9, 16, 17, 64, 65, 256, 1000]) } else { *r.pick(&[2u32, 7, 8, 9, 16, 17, 64, 65, 65, 256]) };
+            format!("rep {} {}", n, op)
+        } else {
+            op
         };
         next(ops, op);
         if i % 25 == 24 {
@@ -1736,7 +1951,11 @@ fn gen_scenario(r: &mut Rng, max_threads: u64, max_ops: u64) -> Scenario {
                 OpR::RegF(if p.is_empty() { p2.clone() } else { p }, tag, if r.chance(1, 4) { Some(2_000_000) } else { None })
             }
             3 => OpR::SetRoot(val(r)),
-            4 => OpR::MergeAt(p, json!({ t2.clone(): r.below(5) })),
+            4 => {
+                // several fields: a merge is ONE step, no reader may see only some of them
+                let o = json!({ t2.clone(): r.below(5), "k1": r.below(5), "k2": r.below(5), "": r.below(5) });
+                if r.chance(1, 3) { OpR::MergeRoot(o) } else { OpR::MergeAt(p, o) }
+            }
             5 | 6 | 7 => OpR::Disp(p, None),
             8 => OpR::Read(p),
             _ => OpR::Disp(p, Some(val(r))),
@@ -1746,6 +1965,27 @@ fn gen_scenario(r: &mut Rng, max_threads: u64, max_ops: u64) -> Scenario {
     let nt = r.range(2, max_threads);
     let threads = (0..nt).map(|_| (0..r.range(2, max_ops)).map(|_| op(r, false)).collect()).collect();
     Scenario { setup, threads }
+}
+
+/// a mutator (2–5 ops) beside 1–3 watchers, each hammering one read-only call on a pointer of the same small pool
+fn gen_watch(r: &mut Rng) -> Watch {
+    let sc = gen_scenario(r, 2, 4);
+    let mut mutator: Vec<OpR> = sc.threads.concat().into_iter().filter(|op| !matches!(op, OpR::Read(_) | OpR::Disp(_, None))).collect();
+    if mutator.is_empty() {
+        mutator.push(OpR::MergeRoot(json!({"k1": 1, "k2": 2, "": 3})));
+    }
+    let mut ptrs: Vec<String> = vec![String::new()];
+    for op in sc.setup.iter().chain(&mutator) {
+        match op {
+            OpR::RegV(p, _) | OpR::MergeAt(p, _) | OpR::Disp(p, _) | OpR::RegF(p, _, _) | OpR::Read(p) => ptrs.push(p.clone()),
+            _ => {}
+        }
+    }
+    let watchers = (0..r.range(1, 3)).map(|_| {
+        let p = r.pick(&ptrs).clone();
+        if r.chance(1, 2) { OpR::Read(p) } else { OpR::Disp(p, None) }
+    }).collect();
+    Watch { setup: sc.setup, mutator, watchers }
 }
 
 /// The order-sensitive pairs between the two lock regions of the body-bearing dispatch: a write whose
@@ -1805,7 +2045,7 @@ fn main() {
         let mut k = 0u64;
         let nseq = if thorough { 4000 } else { 400 };
         for _ in 0..nseq {
-            gen_sequence(&mut rng, &mut k, &mut ops, 100);
+            gen_sequence(&mut rng, &mut k, &mut ops, 100, thorough);
         }
         gen_jp(&mut rng, &mut k, &mut ops, if thorough { 40000 } else { 4000 });
         let len = if thorough { 5 } else { 4 };
@@ -1818,7 +2058,7 @@ fn main() {
         out.rule = "concurrent histories on one real Registry: 2..4 threads x 2..4 ops (register_value, register_function, set_root, merge_at, read, dispatch read/write/call) over 3 nested pointers + root, threads released together by a spin barrier, each scenario run many times and every distinct outcome checked; plus targeted two-thread race loops on the pairs that are order-sensitive between the two lock regions of the body-bearing dispatch. Distinct by scenario+outcome; non-trivial = the scenario showed more than one outcome".into();
         let mut ops = Vec::new();
         let mut k = 0u64;
-        let (nsc, iters, race) = if thorough { (1500, 200, 1_000_000) } else { (250, 40, 100_000) };
+        let (nsc, iters, race) = if thorough { (1200, 200, 500_000) } else { (250, 40, 100_000) };
         for sc in race_scenarios() {
             ops.push(format!("conc {} {} {}", k, race, sc.words()));
             k += 1;
@@ -1828,9 +2068,16 @@ fn main() {
             ops.push(format!("conc {} {} {}", k, iters, sc.words()));
             k += 1;
         }
+        // observers beside a mutator: merges of several fields, root replacement, registrations, writes
+        for _ in 0..nsc / 3 {
+            let wt = gen_watch(&mut rng);
+            ops.push(format!("watch {} {} {}", k, iters, wt.words()));
+            k += 1;
+        }
         ops
     };
     let mut ctx = Ctx { sys: Sys::new(), prefixes: vec![], router: None, trail: vec![], pending_lines: vec![] };
+    let mut wedged = false;
     for line in ops {
         let line = match line.split_once(" => ") {
             Some((a, _)) => a.to_string(),
@@ -1840,18 +2087,32 @@ fn main() {
         *CURRENT.lock().unwrap() = (line.clone(), ctx.trail.clone());
         let name = line.split(' ').next().unwrap_or("");
         // the watchdog times single registry calls, not the composite lines (an enumeration, a race loop)
-        OP_STARTED.store(if name == "enum" || name == "conc" { 0 } else { now_ms() }, Ordering::SeqCst);
+        OP_STARTED.store(if name == "enum" || name == "conc" || name == "watch" { 0 } else { now_ms() }, Ordering::SeqCst);
         match name {
             "conc" => exec_conc(&mut out, &line),
+            "watch" => exec_watch(&mut out, &line),
             "enum" => {
                 let obs = exec_enum(&mut out, &line);
                 out.case(&line, &obs, true);
             }
             "nregv" => {} // derived line of an earlier run (a re-entrant callable's nested call): re-derived, not executed
+            _ if wedged && name != "reset" => {} // the rest of a sequence whose registry stopped answering
             _ => {
-                match exec_seq(&mut out, &mut ctx, &line) {
-                    Some((obs, nt)) => out.case(&line, &obs, nt),
-                    None => out.config(&line),
+                wedged = false;
+                // the harness's own observation calls (tree dump, probes) go through the public API too: if they panic,
+                // the registry has stopped answering (e.g. it treats a lock poisoned by a panicking Drop as fatal)
+                match catch(|| exec_seq(&mut out, &mut ctx, &line)) {
+                    Ok(Some((obs, nt))) => out.case(&line, &obs, nt),
+                    Ok(None) => out.config(&line),
+                    Err(msg) => {
+                        wedged = true;
+                        let mut trail = ctx.trail.clone();
+                        if trail.last() != Some(&line) {
+                            trail.push(line.clone());
+                        }
+                        out.oracle_fail("registry.wedged", &format!("the registry panicked on an ordinary call after an earlier panic inside an API call: {}", msg), &trail);
+                        out.case(&line, &format!("{} wedged", line.split(' ').nth(1).unwrap_or("?")), false);
+                    }
                 }
                 for (l, o) in std::mem::take(&mut ctx.pending_lines) {
                     ctx.trail.push(l.clone());
@@ -1860,6 +2121,9 @@ fn main() {
             }
         }
         OP_STARTED.store(0, Ordering::SeqCst);
+        if out.oracle_failures >= 12 {
+            break; // enough failing inputs: report quickly
+        }
     }
     out.finish();
 }
